@@ -12,7 +12,8 @@ X = [1.3, 0.7, 2.1]
 T = 0.37
 
 MUTATORS = ["add_transition", "add_event_multi", "add_event_bare", "add_birth", "add_death", "add_ode",
-            "ode_list_set", "add_param", "add_event_mu", "add_derived", "add_event_phi", "set_all", "set_partial"]
+            "ode_list_set", "add_param", "add_event_mu", "add_derived", "add_event_phi", "set_all", "set_partial",
+            "set_partial_sym", "set_new_only"]
 
 
 def base_model(lambda_backend=True):
@@ -38,7 +39,7 @@ def other_model():
 
 def enabled(op, hist):
     """preconditions that keep histories inside well-formed definitions"""
-    if op == "add_event_mu":
+    if op in ("add_event_mu", "set_new_only"):
         return "add_param" in hist
     if op == "add_event_phi":
         return "add_derived" in hist
@@ -94,6 +95,11 @@ def apply(m, op, hist_before, other=None):
         m.parameters = vals[:m.num_param]
     elif op == "set_partial":
         m.parameters = {"gamma": 0.45}
+    elif op == "set_partial_sym":        # the same parameter, keyed by a plain sympy Symbol
+        import sympy
+        m.parameters = {sympy.Symbol("gamma"): 0.65}
+    elif op == "set_new_only":           # only the parameter that was added later
+        m.parameters = {"mu": 0.25}
     else:
         raise ValueError(op)
     return None
